@@ -31,6 +31,9 @@ CHECKS = {
  "C13": dict(cat="proof", tech="contract-based deductive: control_allocation traced from the real code; postconditions over its piecewise graph decided by z3/cvc5 (QF_NRA/LRA) after exact ring normalisation of branch-free sub-terms and folding of conditions decided by the requires; frame (dominator) check on the graph; ring identity for the mixer inverse",
              text="For symbolic positive F_max, l, Cm, Ct and every demand: forces in [0, F_max], speeds finite and non-negative, M_sat range-limited; for range-limited demands (to which every demand reduces by the dominance obligation): feasible demands reproduced exactly, and when the moment spread fits in F_max the realised moment equals the demand with a uniform, least collective shift.",
              note="A-GRAPH; real arithmetic (IEEE rounding of the shift not modelled); z3/cvc5; own encoder", ref="5/C13"),
+ "C16": dict(cat="proof", tech="contract-based deductive: quadrotor.derive_model traced with all 39 parameters symbolic; invariants decided as ring identities per control path (ALG), dependency (frame) analysis on the graph, SMT for the motor law",
+             text="q.q' = 0; Newton-Euler wrench equals the independent per-rotor sum (thrust at arm position, reaction torque, modelled aero/ground terms); hover with quarter-weight rotors on a symmetric frame is an equilibrium; free-fall accelerometer output is zero; zero rotor moment for equal speeds on a symmetric frame; independence of horizontal position and equivariance under yaw rotations of the world; first-order motor lag with the right time constant. All for symbolic positive parameters and all states.",
+             note="A-GRAPH; real arithmetic; symmetric-frame and positivity requires listed in the evidence", ref="5/C16"),
 }
 NA = {
  "C17": "closed-loop convergence of the hybrid cascade from an envelope of initial conditions is a whole-trajectory property; no pre/postcondition on a function of /repo expresses it short of a Lyapunov certificate (its per-call ingredients are C13, C15, C16)",
